@@ -7,7 +7,7 @@
               Color = enum(red, green)
      urn:app: Circle{x: Unicode}                                                (unrelated, same NAME as tns:Circle)
      f(shape: Shape, n: Integer, s: Unicode, d: Date, col: Color, xs: Array(Integer), ps: Array(Person), p: Person,
-       fl: Double, b: Boolean, cs: Array(Circle), ss: Array(Shape), aa: Array(Array(Unicode))) -> Integer
+       fl: Double, b: Boolean, cs: Array(Circle), ss: Array(Shape), aa: Array(Array(Unicode)), de: Decimal) -> Integer
      g(c: {urn:app}Circle) -> Integer
    A valid request for f is mutated at ONE position by one type-directed operator; the
    server is the same for all mutants of a run (so consecutive requests can interfere).
@@ -42,7 +42,7 @@ Args == << <<"shape", Cls(Tns, "Shape")>>, <<"n", Prim("Integer")>>, <<"s", Prim
            <<"xs", ArrOf(Prim("Integer"))>>, <<"ps", ArrOf(Cls(Tns, "Person"))>>, <<"p", Cls(Tns, "Person")>>,
            <<"fl", Prim("Double")>>, <<"b", Prim("Boolean")>>,
            <<"cs", ArrOf(Cls(Tns, "Circle"))>>, <<"ss", ArrOf(Cls(Tns, "Shape"))>>,
-           <<"aa", ArrOf(ArrOf(Prim("Unicode")))>> >>
+           <<"aa", ArrOf(ArrOf(Prim("Unicode")))>>, <<"de", Prim("Decimal")>> >>
 \* the SOAP request header of the service (delivered to user code as ctx.in_header)
 Header == Cls(Tns, "Session")
 
@@ -59,7 +59,9 @@ Positions == { [path |-> <<"shape">>, t |-> Cls(Tns, "Shape")], [path |-> <<"sha
                [path |-> <<"ss">>, t |-> ArrOf(Cls(Tns, "Shape"))],
                \* an array directly inside an array: the declared types hold at every depth
                [path |-> <<"aa">>, t |-> ArrOf(ArrOf(Prim("Unicode")))], [path |-> <<"aa", "0">>, t |-> ArrOf(Prim("Unicode"))],
-               [path |-> <<"aa", "0", "0">>, t |-> Prim("Unicode")] }
+               [path |-> <<"aa", "0", "0">>, t |-> Prim("Unicode")],
+               \* a decimal travels as text in the dict documents: a NUMBER (or a boolean) of the document is not a decimal
+               [path |-> <<"de">>, t |-> Prim("Decimal")] }
 \* positions inside the SOAP header (XML family, SOAP protocols only)
 HeaderPositions == { [path |-> <<"@hdr">>, t |-> Header], [path |-> <<"@hdr", "token">>, t |-> Prim("Unicode")],
                      [path |-> <<"@hdr", "n">>, t |-> Prim("Integer")], [path |-> <<"@hdr", "d">>, t |-> Prim("Date")] }
@@ -92,7 +94,7 @@ Mutants == XmlMutants \cup DictMutants \cup WrapMutants \cup FlatMutants
 
 \* ---- what the driver reports for a delivered value (its SHAPE):
 \*   <<"nil">> | <<"leaf", kind>> | <<"obj", ns, name, <<shape per flat field of THAT class>>>> | <<"seq", <<shapes>>>>
-NativeKind(p) == CASE p = "Integer" -> "int" [] p = "Unicode" -> "str" [] p = "Date" -> "date" [] p = "Boolean" -> "bool" [] p = "Double" -> "float" [] OTHER -> "?"
+NativeKind(p) == CASE p = "Integer" -> "int" [] p = "Unicode" -> "str" [] p = "Date" -> "date" [] p = "Boolean" -> "bool" [] p = "Double" -> "float" [] p = "Decimal" -> "decimal" [] OTHER -> "?"
 RECURSIVE Conforms(_, _)
 Conforms(t, s) ==
   IF s = <<"nil">> THEN TRUE
